@@ -69,6 +69,24 @@ static void outhexc(const char *s) {
 
 static void handle(int argc, char **argv);
 
+/* per-case leak check (property C16): with VERIF_LEAKCHECK=1 in the environment and a sanitized build, LeakSanitizer is
+   asked after every case whether anything allocated so far is unreachable; a leaking case gets ` !LEAK` appended to its
+   observation line.  Executors must therefore release everything they own before returning from handle(). */
+#if defined(__SANITIZE_ADDRESS__)
+#include <sanitizer/lsan_interface.h>
+#define VERIF_HAVE_LSAN 1
+#else
+#define VERIF_HAVE_LSAN 0
+#endif
+
+/* overwrite the dead stack region below main() so that stale pointers left there by handle() do not hide a leak from
+   the (conservative) leak scanner */
+static void __attribute__((noinline)) verif_scrub_stack(void) {
+    volatile char buf[1 << 17];
+    size_t i;
+    for (i = 0; i < sizeof(buf); i++) buf[i] = 0;
+}
+
 #ifndef VERIF_CASE_SECONDS
 #define VERIF_CASE_SECONDS 20
 #endif
@@ -79,6 +97,7 @@ int main(void) {
     ssize_t n;
     char **argv = NULL;
     size_t argcap = 0;
+    int leakcheck = VERIF_HAVE_LSAN && getenv("VERIF_LEAKCHECK") && atoi(getenv("VERIF_LEAKCHECK"));
 
     while ((n = getline(&line, &cap, stdin)) > 0) {
         int argc = 0;
@@ -94,6 +113,9 @@ int main(void) {
         alarm(VERIF_CASE_SECONDS);       /* a case that does not return is an observation (TIMEOUT), not a hang */
         handle(argc, argv);
         alarm(0);
+#if VERIF_HAVE_LSAN
+        if (leakcheck) { verif_scrub_stack(); if (__lsan_do_recoverable_leak_check()) printf(" !LEAK"); }
+#endif
         printf("\n");
         fflush(stdout);
     }
